@@ -4,6 +4,7 @@ import (
 	"fmt"
 	"math/rand"
 	"strconv"
+	"strings"
 )
 
 // Case is one generated history for one machine kind.
@@ -417,6 +418,145 @@ func genM1(r *rand.Rand, p Profile, id string) Case {
 				[]string{"reopen", "fast=true"})
 			t.cur = t.latest()
 			obs(r, g, t, false, &ops)
+		case "faults":
+			// every single-fault position of a burst of reads and of one write operation
+			tg := "w"
+			if len(t.versions) > 0 && r.Intn(2) == 0 {
+				tg = "v" + i64(t.versions[r.Intn(len(t.versions))])
+			}
+			k := hx(g.key())
+			for _, rd := range [][]string{{"get", k}, {"has", hx(g.key())}, {"gwi", hx(g.probe())}, {"gbi", i64(int64(r.Intn(len(g.pool))))},
+				{"iter", optTok(r, g), optTok(r, g), "0", strconv.Itoa(r.Intn(2))}, {"iterate"}, {"gproof", hx(g.key())}, {"gproof", hx(g.probe())}, {"export"}} {
+				ops = append(ops, append([]string{"fault", "r", tg}, rd...))
+			}
+			if len(t.versions) > 0 {
+				ops = append(ops, []string{"fault", "getv", k, i64(t.versions[r.Intn(len(t.versions))])})
+			}
+			continue
+		case "faultsave":
+			ops = append(ops, []string{"fault", "save"})
+			nv := t.cur + 1
+			if t.cur == 0 && iv > 0 {
+				nv = iv
+			}
+			if !t.has(nv) {
+				t.versions = append(t.versions, nv)
+				t.cur = nv
+			}
+			t.dirty = false
+		case "faultprune":
+			if len(t.versions) < 2 || t.cur != t.latest() {
+				continue
+			}
+			n := t.first() + int64(r.Intn(int(t.latest()-t.first())))
+			ops = append(ops, []string{"fault", "prune", i64(n)})
+			var keep []int64
+			for _, v := range t.versions {
+				if v > n {
+					keep = append(keep, v)
+				}
+			}
+			t.versions = keep
+		case "crashsave":
+			ops = append(ops, []string{"crash", "save"})
+			nv := t.cur + 1
+			if t.cur == 0 && iv > 0 {
+				nv = iv
+			}
+			if !t.has(nv) {
+				t.versions = append(t.versions, nv)
+				t.cur = nv
+			}
+			t.dirty = false
+		case "crashprune":
+			if len(t.versions) < 2 || t.cur != t.latest() {
+				continue
+			}
+			n := t.first() + int64(r.Intn(int(t.latest()-t.first())))
+			ops = append(ops, []string{"crash", "prune", i64(n)})
+			var keep []int64
+			for _, v := range t.versions {
+				if v > n {
+					keep = append(keep, v)
+				}
+			}
+			t.versions = keep
+		case "crashlvfo":
+			if len(t.versions) < 2 {
+				continue
+			}
+			v := t.versions[r.Intn(len(t.versions)-1)]
+			ops = append(ops, []string{"crash", "lvfo", i64(v)})
+			var keep []int64
+			for _, w := range t.versions {
+				if w <= v {
+					keep = append(keep, w)
+				}
+			}
+			t.versions = keep
+			t.cur = v
+			t.dirty = false
+		case "crashreopen":
+			// first-time / forced index build: open with the index disabled, commit, re-enable
+			ops = append(ops, []string{"reopen", "fast=false"}, []string{"set", hx(g.key()), hx([]byte("x"))}, []string{"save"})
+			nv := t.latest() + 1
+			if t.latest() == 0 && iv > 0 {
+				nv = iv
+			}
+			t.versions = append(t.versions, nv)
+			t.cur = nv
+			ops = append(ops, []string{"crash", "reopen", "fast=true"})
+			t.dirty = false
+		case "changes":
+			if len(t.versions) == 0 {
+				continue
+			}
+			a := t.first() - 1 + int64(r.Intn(int(t.latest()-t.first())+3))
+			b := a + int64(r.Intn(4))
+			if r.Intn(3) == 0 {
+				a, b = 0, t.latest()+2
+			}
+			ops = append(ops, []string{"changes", i64(a), i64(b)})
+			continue
+		case "savecs":
+			// a change set: mostly valid pairs, sometimes the removal of a missing key
+			n := r.Intn(4)
+			var ps []string
+			for i := 0; i < n; i++ {
+				if r.Intn(3) == 0 {
+					ps = append(ps, hx(g.key())+"-")
+				} else {
+					v := g.value()
+					if len(v) == 0 {
+						ps = append(ps, hx(g.key())+"=")
+					} else {
+						ps = append(ps, hx(g.key())+"="+hx(v))
+					}
+				}
+			}
+			tok := "."
+			if len(ps) > 0 {
+				tok = strings.Join(ps, ",")
+			}
+			ops = append(ops, []string{"savecs", tok})
+			// outcome unknown to the tracker: resynchronise through a reopen
+			ops = append(ops, []string{"rollback"}, []string{"reopen"})
+			// optimistic: if the change set was rejected the tracker believes in a version that
+			// does not exist; later operations on it are then error cases on both sides
+			if t.cur == t.latest() {
+				nv := t.latest() + 1
+				if t.latest() == 0 && iv > 0 {
+					nv = iv
+				}
+				t.versions = append(t.versions, nv)
+			}
+			t.cur = t.latest()
+			t.dirty = false
+			muts++
+			continue
+		case "replaycs":
+			ops = append(ops, []string{"replaycs"})
+			continue
 		case "proofs":
 			tg := "w"
 			if len(t.versions) > 0 && r.Intn(4) != 0 {
